@@ -253,9 +253,9 @@ func runFlushCase(c flushCase, section string, sec *vh.Section, verbose bool) {
 			}
 		}
 		r.done = append(r.done, op{Kind: "write", Segs: c.Steps[i]})
-		r.ask("rw.write "+modelSpec(ts), func(string) {})
-		r.ask("rw.autorebuild", func(string) {})
-		r.ask("rw.rebuildcounts "+joinS(cnts), func(string) {})
+		r.ask("rw.write "+modelSpec(ts), r.linkCheck())
+		r.ask("rw.autorebuild", r.linkCheck())
+		r.ask("rw.rebuildcounts "+joinS(cnts), r.linkCheck())
 		r.compareIndexState("rebuild before the last write was confirmed", rng)
 		// queries aimed at the new records: at / above the hull the rebuild could have seen
 		first, last := ts[0], ts[len(ts)-1]
